@@ -82,8 +82,17 @@ def _class_key(instr) -> Tuple:
     return (instr.length(), tuple(type(t).__name__ for t in toks))
 
 
+def _ctx(pre, op, tails, deep_tails, sweep_fill, callbacks):
+    """Everything needed to re-run the shard a witness was seen in (process-wide decode caches make the whole shard its history)."""
+    return {"pre": pre, "op": op, "pairs": [list(p) for p in _CUR["pairs"]], "sweep_pres": [p for p in _CUR["sweep_pres"]], "tails": [t.hex() for t in tails], "deep_tails": deep_tails, "fill": sweep_fill.hex(), "callbacks": bool(callbacks)}
+
+
+_CUR: Dict[str, Any] = {"pairs": [], "sweep_pres": []}
+
+
 def _shard(args) -> Dict[str, Any]:
     pairs, tails, deep_tails, sweep_pres, sweep_fill, callbacks = args
+    _CUR["pairs"], _CUR["sweep_pres"] = list(pairs), list(sweep_pres)
     ev = 0
     acc = 0
     viol: List[Tuple[str, str, Dict[str, Any]]] = []
@@ -110,17 +119,21 @@ def _shard(args) -> Dict[str, Any]:
                 ln = key[0]
                 head = (bytes([pre]) if pre is not None else b"") + bytes([op, b2])
                 base = bytearray((head + sweep_fill)[: drv.MAXLEN])
+                last_d = bytes(base)
                 for p in range(len(head), min(ln, drv.MAXLEN)):
                     for val in range(256):
                         d = bytearray(base)
                         d[p] = val
+                        last_d = bytes(d)
                         # the architecture callbacks see every variant of the longest encodings at one address
                         cls, v = judge(bytes(d), ADDR, deep=False, callbacks=callbacks and ln >= 6)
                         sweep_ev += 1
                         if cls == "accepted":
                             acc += 1
                         if v:
-                            viol.append((v[0] + "/sweep", v[1], {"bytes": bytes(d).hex(), "addr": ADDR}))
+                            # the whole sweep is the witness: a violation may depend on the variants decoded before it
+                            viol.append((v[0] + "/sweep", v[1], {"bytes": bytes(d).hex(), "addr": ADDR, "sweep_base": bytes(base).hex(),
+                                                                 "pos": p, "ln": ln, "callbacks": bool(callbacks), "ctx": _ctx(pre, op, tails, deep_tails, sweep_fill, callbacks)}))
                 # the same instruction followed by one that shares prefix/opcode but differs in its operand bytes
                 # (the decoder looks ahead at the follower): the round trip must still return the first one
                 first = bytes(base[:ln])
@@ -130,7 +143,7 @@ def _shard(args) -> Dict[str, Any]:
                         cls, v = judge(first + fol, ADDR, deep=False, callbacks=callbacks)
                         sweep_ev += 1
                         if v:
-                            viol.append((v[0] + "/same-opcode-follower", v[1], {"bytes": (first + fol).hex(), "addr": ADDR}))
+                            viol.append((v[0] + "/same-opcode-follower", v[1], {"bytes": (first + fol).hex(), "addr": ADDR, "prior": [bytes(base).hex(), last_d.hex()], "ctx": _ctx(pre, op, tails, deep_tails, sweep_fill, callbacks)}))
                 if len(samples) < 2 and ln >= 4:
                     samples.append(f"sweep base={bytes(base).hex()} positions {len(head)}..{ln - 1} x 256 values")
     return {"ev": ev, "acc": acc, "sweep_ev": sweep_ev, "viol": viol, "samples": samples}
@@ -178,7 +191,31 @@ def run(ctx) -> None:
     ]
 
 
-def replay(ctx, witness) -> Optional[str]:
+def replay(ctx, witness, sig=None) -> Optional[str]:
     data = bytes.fromhex(witness["bytes"])
+    if "ctx" in witness and sig:
+        # history-dependent violations (decode caches): re-run everything the shard did for this prefix/opcode, in order
+        c = witness["ctx"]
+        r = _shard(([tuple(p) for p in c["pairs"]], [bytes.fromhex(t) for t in c["tails"]], c["deep_tails"], set(c["sweep_pres"]), bytes.fromhex(c["fill"]), c["callbacks"]))
+        for s_, what, _w in r["viol"]:
+            if s_ == sig:
+                return "[in the decode history of its prefix/opcode sweep] " + what
+        return None
+    if "sweep_base" not in witness:
+        for pr in witness.get("prior", []):      # inputs decoded at the same address before this one
+            judge(bytes.fromhex(pr), witness.get("addr", ADDR), deep=False, callbacks=True)
+        _, v = judge(data, witness.get("addr", ADDR), deep=not witness.get("prior"), callbacks=True)
+        return v[1] if v else None
+    if True:
+        # history-dependent: replay the sweep the violation was seen in (same order, same address) in this fresh process
+        base = bytearray.fromhex(witness["sweep_base"])
+        cb = witness.get("callbacks", True) and witness.get("ln", 0) >= 6
+        judge(bytes(base), witness.get("addr", ADDR), deep=False, callbacks=cb)     # the sweeps of earlier positions pass through the base
+        for val in range(256):
+            d = bytearray(base)
+            d[witness["pos"]] = val
+            _, v = judge(bytes(d), witness.get("addr", ADDR), deep=False, callbacks=witness.get("callbacks", True) and witness.get("ln", 0) >= 6)
+            if v and bytes(d) == data:
+                return "[as seen in its sweep: base, then the variants in order, at one address] " + v[1]
     _, v = judge(data, witness.get("addr", ADDR), deep=True, callbacks=True)
     return v[1] if v else None
